@@ -309,14 +309,19 @@ def bibtex_width(string):
 
     from pybtex.charwidths import charwidths
     width = 0
+    previous = None
     for token, brace_level in scan_bibtex_string(string):
-        if brace_level == 1 and token.startswith('\\'):
+        # a special character directly follows the brace that opens it; every
+        # other character, a backslash inside a group included, counts as it is
+        if (brace_level == 1 and token.startswith('\\')
+                and previous == ('{', 1)):
             for char in token[2:]:
                 if char not in '{}':
                     width += charwidths.get(char, 0)
             width -= 1000  # two braces
         else:
             width += charwidths.get(token, 0)
+        previous = (token, brace_level)
     return width
 
 
